@@ -152,4 +152,35 @@ def specContains (l : QLine) (p : QPoint) : Option String :=
   else if (margin.sq * l.n2).le s2 then some "false"
   else none
 
+/-! ### the point algebra (`pt` cases): `Add Sub Mul<f64> Div<f64>` of `Point`, `slen len dp cp` -/
+
+/-- relative tolerance of the `pt` observations: `4e-15` (a handful of f64 roundings; one rounding is `1.1e-16`) -/
+def relTol : Q := ⟨4, 10 ^ 15⟩
+
+/-- `|v - e| ≤ relTol · bound` -/
+def within (v e bound : Q) : Bool := (v - e).abs.le (relTol * bound)
+
+/-- what was observed for the operands `(a, b, k)`: `a + b`, `a - b`, `a * k`, `a / k`, `a.slen()`, `a.len()`, `a.dp(b)`, `a.cp(b)` -/
+structure PtObs where
+  add : QPoint
+  sub : QPoint
+  mul : QPoint
+  div : QPoint
+  slen : Q
+  len : Q
+  dp : Q
+  cp : Q
+
+/-- every observation is within `relTol` (relative to the sum of the magnitudes of the terms it is made of) of the exact
+    value; the quotient is checked after multiplying back, the length through its square (`0 ≤ len`, `len² ≈ slen`). -/
+def ptOk (a b : QPoint) (k : Q) (o : PtObs) : Bool :=
+  within o.add.x (a.x + b.x) (a.x.abs + b.x.abs) && within o.add.y (a.y + b.y) (a.y.abs + b.y.abs)
+  && within o.sub.x (a.x - b.x) (a.x.abs + b.x.abs) && within o.sub.y (a.y - b.y) (a.y.abs + b.y.abs)
+  && within o.mul.x (a.x * k) (a.x * k).abs && within o.mul.y (a.y * k) (a.y * k).abs
+  && within (o.div.x * k) a.x a.x.abs && within (o.div.y * k) a.y a.y.abs
+  && within o.slen (a.x.sq + a.y.sq) (a.x.sq + a.y.sq)
+  && (Q.ofInt 0).le o.len && within o.len.sq (a.x.sq + a.y.sq) (a.x.sq + a.y.sq)
+  && within o.dp (a.x * b.x + a.y * b.y) ((a.x * b.x).abs + (a.y * b.y).abs)
+  && within o.cp (a.x * b.y - a.y * b.x) ((a.x * b.y).abs + (a.y * b.x).abs)
+
 end Rlib.Geometry
